@@ -31,7 +31,9 @@ REGISTRATION = {
             "theorem (every history of complete disciplined operations and Put/Import/Resolve/Link each cut anywhere keeps every "
             "blob trusted under its size; a stored blob stays retrievable), Resolve's read limit, negative sizes and manifests "
             "written behind the cache's back inside the model (findings F28, F29 with witnesses and variant flags), all variant "
-            "facts obtained by executing the tree, fail-closed branch coverage. NOT claimed: the statement's combination of "
+            "facts obtained by executing the tree, fail-closed branch coverage; chunker sessions (one Chunked, several Chunker.Put on "
+            "the open file) modelled, a complete in-order tiling proved to store the content, driven on the real code; F9/F10 "
+            "signatures narrowed to what those findings explain (failing instant, Go twin of the documented chunk algorithm). NOT claimed: the statement's combination of "
             "faulty sources WITH concurrent writers (refuted: F9); `Get` alone is not the test - a crashed partial file is "
             "reported present under its own length, the theorems speak of the size the digest is stored under.",
     "design_ref": "DESIGN.md §5 C08",
@@ -90,6 +92,7 @@ THEOREMS = [
     "OllamaVerif.C08.copyLoop_append",
     "OllamaVerif.C08.tiles_run",
     "OllamaVerif.C08.session_tiling_complete",
+    "OllamaVerif.C08.session_complete_present",
     "OllamaVerif.C08.crashHist_nonvacuous",
     "OllamaVerif.C08.size_lie_after_crash_present_wrong_content",
     "OllamaVerif.C08.undisciplined_put_destroys_linked_blob",
